@@ -99,6 +99,15 @@ func (c *Ctx) fn(pkg, name string) *ssa.Function {
 	if f == nil || f.Blocks == nil {
 		panic(anchorErr{fmt.Sprintf("function %s.%s not found in the loaded program", pkg, name)})
 	}
+	if lg := os.Getenv("VCHK_FNLOG"); lg != "" { // dev aid: which functions a check anchors on (file:first-last line)
+		if fh, err := os.OpenFile(lg, os.O_APPEND|os.O_CREATE|os.O_WRONLY, 0o644); err == nil {
+			if syn := f.Syntax(); syn != nil {
+				a, b := c.P.Fset.Position(syn.Pos()), c.P.Fset.Position(syn.End())
+				fmt.Fprintf(fh, "%s %s %d %d\n", c.Prop, a.Filename, a.Line, b.Line)
+			}
+			fh.Close()
+		}
+	}
 	return f
 }
 
